@@ -117,10 +117,19 @@ def remaining_from_guard(facts, idx, buf):
     if base[0] == "bin" and base[1] == "Add" and _strip(base[3])[0] == "const":
         off = _strip(base[3])[1]
         base = _strip(base[2])
+    norm = []
     for cond, val in facts:
-        if val is not True or cond[0] != "bin" or cond[1] not in ("Lt", "Le"):
+        if cond[0] != "bin" or cond[1] not in ("Lt", "Le", "Gt", "Ge") or not isinstance(val, bool):
             continue
-        a, b = _strip(cond[2]), _strip(cond[3])
+        op, l_, r_ = cond[1], cond[2], cond[3]
+        if not val:
+            op = {"Lt": "Ge", "Le": "Gt", "Gt": "Le", "Ge": "Lt"}[op]
+        if op in ("Gt", "Ge"):
+            op, l_, r_ = {"Gt": "Lt", "Ge": "Le"}[op], r_, l_
+        norm.append((op, l_, r_))           # l_ < r_  /  l_ <= r_
+    for (op_, l_, r_) in norm:
+        cond = ("bin", op_, l_, r_)
+        a, b = _strip(l_), _strip(r_)
         if a != base:
             continue
         k = None
@@ -163,8 +172,10 @@ def window_slack(sym, facts, buf, idx):
     best = 0
     base = _strip(idx)
     for cond, val in facts:
-        if val is not True or cond[0] != "bin" or cond[1] not in ("Ge", "Gt"):
+        if val is not True or cond[0] != "bin" or cond[1] not in ("Ge", "Gt", "Le", "Lt"):
             continue
+        if cond[1] in ("Le", "Lt"):         # m <= len - E   is   len - E >= m
+            cond = ("bin", {"Le": "Ge", "Lt": "Gt"}[cond[1]], cond[3], cond[2])
         a, b = _strip(cond[2]), _strip(cond[3])
         if b[0] != "const" or not isinstance(b[1], int):
             continue
